@@ -554,8 +554,8 @@ pub fn defs() -> Vec<CheckDef> {
     vec![CheckDef {
         id: "C18",
         level: "exploration",
-        runs_quick: 300_000,
-        runs_thorough: 5_000_000,
+        runs_quick: 1_000_000,
+        runs_thorough: 20_000_000,
         block: 256,
         gen: gen_c18,
         exec,
